@@ -13,3 +13,49 @@ package route_rule_conf
 //@   trusted lookups in the basic rule tree write nothing; the result is a function of the tree, host and path (the tree's own precedence rules are property C11)
 //@   modifies nothing
 //@   ensures result0 == basicName(r, host, path) && result1 == basicFound(r, host, path)
+
+// ---- C13: a malformed (but decodable) route table is rejected with an error, never with a crash ----
+
+//@ func checkHostInBasicRule
+//@   props C13
+//@   nopanic
+//@   modifies nothing
+//@   ensures[an_accepted_host_pattern_is_not_empty] result0 == nil ==> len(host) > 0
+
+//@ func checkPathInBasicRule
+//@   props C13
+//@   nopanic
+//@   modifies nothing
+//@   ensures[an_accepted_path_pattern_is_not_empty] result0 == nil ==> len(path) > 0
+
+//@ func convertAdvancedRule
+//@   props C13
+//@   nopanic nil,index,makeslice
+//@   frame Build pure
+//@   modifies *
+
+//@ func convertBasicRule
+//@   props C13
+//@   nopanic nil,index,makeslice
+//@   modifies *
+
+//@ func convert
+//@   props C13
+//@   nopanic nil,index
+//@   requires fileConf != nil
+//@   frame convertBasicRule keeps fileConf.Version
+//@   frame convertAdvancedRule keeps fileConf.Version
+//@   note converting the rules is assumed not to overwrite the version field of the decoded file
+//@   modifies *
+
+//@ func (*hostTrees).insert
+//@   props C13
+//@   nopanic index,slice,nil
+//@   requires ht != nil && len(host) > 0 && ht[0] != nil && ht[1] != nil
+//@   modifies *
+
+//@ func (*pathTrees).insert
+//@   props C13
+//@   nopanic index,slice,nil
+//@   requires pt != nil && pt[0] != nil && pt[1] != nil
+//@   modifies *
